@@ -281,9 +281,9 @@ var reflectKindReq = map[string][]int64{
 	"MapIndex":    {rkMap},
 	"MapKeys":     {rkMap},
 	"MapRange":    {rkMap},
-	"Convert":     {-1}, // needs CanConvert(target)
-	"Addr":        {-2}, // needs CanAddr()
-	"Key":         {rkMap},                                       // reflect.Type.Key
+	"Convert":     {-1},                                         // needs CanConvert(target)
+	"Addr":        {-2},                                         // needs CanAddr()
+	"Key":         {rkMap},                                      // reflect.Type.Key
 	"TypeElem":    {rkArray, rkChan, rkMap, rkPointer, rkSlice}, // reflect.Type.Elem
 }
 
